@@ -144,13 +144,18 @@ def side(job, lim, method, path):
                       p.conds(), dict(key='C18:side:%s:not-z0-plus-step' % method, kind='side', method=method))
 
 
+Z0_ORDER = [1.0, 0.5, 0.75, 0.25]
+
+
 def nan_patterns(job, lim):
     nan = float('nan')
     for n, zshape in ((1, (1,)), (2, (2,)), (3, (3,)), (4, (2, 2))):
         for mask in range(1, 2 ** n):
             pattern = [(mask >> i) & 1 for i in range(n)]      # 1 = NaN at z0 (C order of the flattened z0)
             vals = [sn.real_var('v%d' % i) for i in range(n)]
-            z0 = np.array([0.5 + 0.25 * i for i in range(n)]).reshape(zshape)
+            # points in NON-ascending order (a reordering of the singular points must be visible)
+            z0flat = np.array(Z0_ORDER[:n])
+            z0 = z0flat.reshape(zshape)
             calls = []
 
             def f(z, *a, **k):
@@ -160,14 +165,14 @@ def nan_patterns(job, lim):
                     for i in range(n):
                         out[i] = nan if pattern[i] else vals[i]
                     return out.reshape(zshape).view(sn.SymArr)
-                # the limit machinery passes the NaN points in flat order: give each its own constant, so that a
-                # misplaced write-back is visible
-                return np.array([10.0 + i for i in range(n) if pattern[i]])[:np.size(z)].reshape(np.shape(z))
+                # every point has its own limit value, identified by the point it is close to (steps are <= 2**-12)
+                zz = np.real(np.asarray(z)).ravel()
+                return np.array([10.0 + int(np.argmin(np.abs(z0flat - v))) for v in zz]).reshape(np.shape(z))
 
             def harness():
                 del calls[:]
                 with tr.traced(), cm.quiet():
-                    return lim.Limit(f, full_output=True)(z0), [c.copy() for c in calls]
+                    return lim.Limit(f, step=2.0 ** -40, num_steps=9, full_output=True)(z0), [c.copy() for c in calls]
             p = sn.run_single(harness)
             job.paths += 1
             if p.exc is not None:
@@ -185,7 +190,7 @@ def nan_patterns(job, lim):
                     ok &= (not sn.is_sym(vl[i])) and abs(float(np.real(vl[i])) - (10.0 + i)) < 1e-9
             nan_pos = [i for i in range(n) if pattern[i]]
             for c in cl[1:]:
-                ok &= c.shape == (len(nan_pos),) and all(abs(c[j] - z0[i]) > 0 for j, i in enumerate(nan_pos))
+                ok &= c.shape == (len(nan_pos),) and all(0 < abs(c[j] - z0[i]) < 0.01 for j, i in enumerate(nan_pos))
             if not job.confirm('pattern %s: finite entries returned unchanged, limit taken at the NaN positions only' % pattern, bool(ok)):
                 job.violation('nan', dict(key='C18:nan:replacement', kind='nan', pattern=pattern))
 
@@ -385,7 +390,8 @@ def replay(cex):
         pattern = cex.get('pattern', [1])
         n = len(pattern)
         zshape = (2, 2) if n == 4 else (n,)
-        z0 = np.array([0.5 + 0.25 * i for i in range(n)]).reshape(zshape)
+        z0flat = np.array(Z0_ORDER[:n])
+        z0 = z0flat.reshape(zshape)
         vals = rng.normal(size=n)
         calls = []
 
@@ -393,10 +399,11 @@ def replay(cex):
             calls.append(1)
             if len(calls) == 1:
                 return np.where(np.array(pattern) == 1, np.nan, vals).reshape(zshape)
-            return np.array([10.0 + i for i in range(n) if pattern[i]])[:np.size(z)].reshape(np.shape(z))
+            zz = np.real(np.asarray(z)).ravel()
+            return np.array([10.0 + int(np.argmin(np.abs(z0flat - v))) for v in zz]).reshape(np.shape(z))
         try:
             with cm.quiet():
-                val, info = lim.Limit(f, full_output=True)(z0)
+                val, info = lim.Limit(f, step=2.0 ** -40, num_steps=9, full_output=True)(z0)
         except Exception as e:  # noqa
             return True, 'Limit raises %s: %s for NaN pattern %s' % (type(e).__name__, e, pattern)
         if np.shape(val) != zshape:
